@@ -51,6 +51,8 @@ type Event struct {
 	D   int64  `json:"d,omitempty"`
 	Op
 	Ops []Op `json:"ops,omitempty"`
+	N   int  `json:"n,omitempty"`       // storm: number of simultaneous requests (ids s0..s<n-1>)
+	Rel string `json:"rel,omitempty"` // storm: how the admitted ones are ended afterwards: resp | err | none
 }
 
 type Flow struct {
@@ -144,7 +146,7 @@ func (rn *runner) do(o Op) vh.Ev {
 		case res.Early:
 			out = fmt.Sprintf("early-status-%d", res.Status)
 		}
-		return vh.Ev{"t": o.T, "qs": rn.sc.Flows[o.Flow].Qs, "early": o.Early, "out": out}
+		return vh.Ev{"t": o.T, "qs": rn.sc.Flows[o.Flow].Qs, "flow": o.Flow, "early": o.Early, "out": out}
 	case "resp":
 		if e := rn.eng.Response(o.T, "GET", rn.urlOf(o.T, ""), 200, nil); e != "" {
 			return vh.Ev{"t": o.T, "error": e}
@@ -253,6 +255,47 @@ func main() {
 					}
 					close(start)
 					wg.Wait()
+				case "storm":
+					// e.N goroutines, one request each, on one flow at one instant; one compact event, then the
+					// admitted transactions are ended one by one (so that the ids can be presented again)
+					ids := make([]string, e.N)
+					outs := make([]string, e.N)
+					var wg sync.WaitGroup
+					start := make(chan struct{})
+					for i := 0; i < e.N; i++ {
+						ids[i] = fmt.Sprintf("s%d", i)
+						wg.Add(1)
+						go func(i int) {
+							defer wg.Done()
+							<-start
+							ev := rn.do(Op{Op: "req", T: ids[i], Flow: e.Flow})
+							outs[i] = fmt.Sprint(ev["out"])
+						}(i)
+					}
+					close(start)
+					wg.Wait()
+					adm := []string{}
+					for i, o := range outs {
+						switch o {
+						case "admit":
+							adm = append(adm, ids[i])
+						case "refuse":
+						default:
+							vh.Die("storm: unexpected outcome %q", o)
+						}
+					}
+					tr.Add(vh.Ev{"ev": "storm", "ts": ids, "qs": rn.sc.Flows[e.Flow].Qs, "flow": e.Flow, "adm": adm, "rel": e.Rel})
+					for k, t := range adm {
+						kind := e.Rel
+						if kind == "mixed" {
+							kind = []string{"resp", "err"}[k%2]
+						}
+						if kind == "resp" || kind == "err" {
+							ev := rn.do(Op{Op: kind, T: t})
+							ev["ev"] = kind
+							tr.Add(ev)
+						}
+					}
 				default:
 					vh.Die("unknown event %q", e.Ev)
 				}
